@@ -42,7 +42,7 @@ def build_situation(src, n, max_load=150, prefix='', lean=False, states=None, no
         adapter.plant_instance_state(core, ident, st)
         running.append(st == S.RUNNING)
     # running load: one ballast process RUNNING on each instance with a symbolic expected_loading
-    load, pend = [], []
+    load, pend, keyed = [], [], []
     # which instances already have pending start requests (absent key / present key in the load request map)
     pendmask = src.pick(prefix + 'pendmask', ['all'] if lean else ['all', 'none', 'first', 'last'])
     for i, ident in enumerate(ids):
@@ -51,9 +51,11 @@ def build_situation(src, n, max_load=150, prefix='', lean=False, states=None, no
         p = core.add_process(ident, 'ballast', f'b{i}', ProcessStates.RUNNING, now=CLOCK[0].t, start=CLOCK[0].t)
         adapter.set_rules(p.rules, expected_load=l)
         has_pend = pendmask == 'all' or (pendmask == 'first' and i == 0) or (pendmask == 'last' and i == n - 1)
+        keyed.append(has_pend)
         pend.append(src.int(f'{prefix}pend{i}', 0, max_load) if has_pend else 0)
     sit = {'n': n, 'node': node, 'running': running, 'load': load, 'pend': pend}
-    load_request_map = {ids[i]: pend[i] for i in range(n) if not (isinstance(pend[i], int) and pend[i] == 0)}
+    # the key is present iff a request is pending there, whatever its (possibly null) load
+    load_request_map = {ids[i]: pend[i] for i in range(n) if keyed[i]}
     return core, sit, load_request_map
 
 
